@@ -3,7 +3,7 @@ import re
 
 from cfg import cfg_of
 from expr import Exprs, fmt, walk, contains, strip_tags
-from mirutil import is_call, dominating_conds, cond_bool, for_loops, effect_profile, profile_diff
+from mirutil import is_call, dominating_conds, cond_bool, for_loops, effect_profile, profile_diff, erase_vars
 from framework import site_of
 import callgraph as cgmod
 import pipeline
@@ -139,13 +139,13 @@ def run(F, rep):
             for blk in f.blocks:
                 t = blk["term"]
                 if t["k"] == "switch" and not t["sp"].get("exp") and not blk["cleanup"]:
-                    s = fmt(strip_tags(ex.operand(t["discr"])))
+                    s = fmt(erase_vars(strip_tags(ex.operand(t["discr"]))))
                     if s.startswith("discr("):
                         continue
                     out.add(s)
             return out
         ca, cb = conds(a), conds(b)
-        need = {"Lt(3, (next(iter) as Some).0)", "Kmer::is_full(kmer)", "Le(segment_size, current_len)"}
+        need = {"Lt(3, (next($) as Some).0)", "Kmer::is_full($)", "Le(segment_size, $)"}
         rep.ob("C11-P4", "both second-pass bodies test: base > 3, window full, distance >= segment size, candidate membership",
                need <= ca and need <= cb and any("contains(candidates" in x for x in ca) and any("contains(candidates" in x for x in cb),
                detail="only in one: %s" % sorted(ca ^ cb), site="%s:%d" % (a.file, a.line_lo), key="C11-P4 | second pass | same conditions")
